@@ -994,4 +994,283 @@ theorem absence_sound' (hinj : EncInj enc) (hne : HNonEmpty H) (fx : Fixes) (hfx
                     · exact Bytes.ne_of_lt (hr x hx)
     · simp at h
 end
+section
+variable (H : Bytes → Bytes) (encKV : Bytes → Bytes → Bytes)
+
+/-- all hashes have one length (SHA-256: 32) — needed to split `left ‖ right` in `innerHash` -/
+def HLen (H : Bytes → Bytes) : Prop := ∀ x y, (H x).length = (H y).length
+
+def KVInj (encKV : Bytes → Bytes → Bytes) : Prop := ∀ a b a' b', encKV a b = encKV a' b' → a = a' ∧ b = b'
+
+theorem splitPointAux_bounds : ∀ fuel k n, 1 ≤ k → k < n → k ≤ splitPointAux fuel k n ∧ splitPointAux fuel k n < n := by
+  intro fuel
+  induction fuel with
+  | zero => intro k n h1 h2; simp [splitPointAux, h2]
+  | succ f ih =>
+    intro k n h1 h2
+    simp only [splitPointAux]
+    split
+    · rename_i h
+      have := ih (2 * k) n (by omega) h
+      exact ⟨by omega, this.2⟩
+    · exact ⟨Nat.le_refl _, h2⟩
+
+theorem splitPoint_bounds (n : Nat) (h : 2 ≤ n) : 1 ≤ splitPoint n ∧ splitPoint n < n :=
+  splitPointAux_bounds n 1 n (Nat.le_refl _) (by omega)
+
+theorem simpleHash_two (fuel : Nat) (a b : Bytes) (rest : List Bytes) :
+    simpleHash H (fuel + 1) (a :: b :: rest) =
+      H (1 :: (simpleHash H fuel ((a :: b :: rest).take (splitPoint (rest.length + 2))) ++
+               simpleHash H fuel ((a :: b :: rest).drop (splitPoint (rest.length + 2))))) := by
+  simp [simpleHash]
+
+theorem simpleHash_ne_nil (hne : HNonEmpty H) : ∀ fuel items, items ≠ [] → items.length ≤ fuel → simpleHash H fuel items ≠ [] := by
+  intro fuel items h1 h2
+  match fuel, items with
+  | 0, _ :: _ => simp at h2
+  | _ + 1, [x] => simp only [simpleHash]; exact hne _
+  | f + 1, a :: b :: rest => rw [simpleHash_two]; exact hne _
+  | _, [] => exact absurd rfl h1
+
+theorem simpleHash_len (hlen : HLen H) : ∀ fuel items fuel' items', items ≠ [] → items' ≠ [] →
+    items.length ≤ fuel → items'.length ≤ fuel' →
+    (simpleHash H fuel items).length = (simpleHash H fuel' items').length := by
+  intro fuel items fuel' items' h1 h1' h2 h2'
+  have key : ∀ f its, its ≠ [] → its.length ≤ f → ∃ x, simpleHash H f its = H x := by
+    intro f its g1 g2
+    match f, its with
+    | 0, _ :: _ => simp at g2
+    | _ + 1, [x] => exact ⟨0 :: x, by simp only [simpleHash]⟩
+    | f + 1, a :: b :: rest => exact ⟨_, simpleHash_two H f a b rest⟩
+    | _, [] => exact absurd rfl g1
+  obtain ⟨x, hx⟩ := key fuel items h1 h2
+  obtain ⟨y, hy⟩ := key fuel' items' h1' h2'
+  rw [hx, hy]; exact hlen x y
+
+/-- **`SimpleHashFromByteSlices` is injective up to hash collisions.** -/
+theorem simpleHash_inj (hne : HNonEmpty H) (hlen : HLen H) :
+    ∀ n, ∀ items items' : List Bytes, items.length ≤ n → items'.length ≤ n →
+    ∀ f f', items.length ≤ f → items'.length ≤ f' →
+    simpleHash H f items = simpleHash H f' items' → Collision H ∨ items = items' := by
+  intro n
+  induction n with
+  | zero =>
+    intro items items' h1 h2 _ _ _ _ _
+    have : items = [] := List.length_eq_zero_iff.mp (by omega)
+    have : items' = [] := List.length_eq_zero_iff.mp (by omega)
+    simp_all
+  | succ n ih =>
+    intro items items' h1 h2 f f' g1 g2 he
+    match items, items', f, f' with
+    | [], [], _, _ => exact Or.inr rfl
+    | [], y :: ys, f, f' =>
+      have : simpleHash H f' (y :: ys) ≠ [] := simpleHash_ne_nil H hne f' _ (by simp) g2
+      have e0 : simpleHash H f ([] : List Bytes) = [] := by cases f <;> simp [simpleHash]
+      rw [e0] at he; exact absurd he.symm this
+    | x :: xs, [], f, f' =>
+      have : simpleHash H f (x :: xs) ≠ [] := simpleHash_ne_nil H hne f _ (by simp) g1
+      have e0 : simpleHash H f' ([] : List Bytes) = [] := by cases f' <;> simp [simpleHash]
+      rw [e0] at he; exact absurd he this
+    | [_], _ :: _, 0, _ => simp at g1
+    | _ :: _, [_], _, 0 => simp at g2
+    | _ :: _ :: _, _, 0, _ => simp at g1
+    | _, _ :: _ :: _, _, 0 => simp at g2
+    | [x], [y], f + 1, f' + 1 =>
+      simp only [simpleHash] at he
+      rcases H_inj_or_collision H he with e | c
+      · simp at e; subst e; exact Or.inr rfl
+      · exact Or.inl c
+    | [x], a :: b :: rest, f + 1, f' + 1 =>
+      rw [simpleHash_two] at he
+      simp only [simpleHash] at he
+      rcases H_inj_or_collision H he with e | c
+      · simp at e
+      · exact Or.inl c
+    | a :: b :: rest, [y], f + 1, f' + 1 =>
+      rw [simpleHash_two] at he
+      simp only [simpleHash] at he
+      rcases H_inj_or_collision H he with e | c
+      · simp at e
+      · exact Or.inl c
+    | a :: b :: rest, a' :: b' :: rest', f + 1, f' + 1 =>
+      rw [simpleHash_two, simpleHash_two] at he
+      rcases H_inj_or_collision H he with e | c
+      · simp only [List.cons.injEq, true_and] at e
+        obtain ⟨k1, k2⟩ := splitPoint_bounds (rest.length + 2) (by omega)
+        obtain ⟨k1', k2'⟩ := splitPoint_bounds (rest'.length + 2) (by omega)
+        generalize hk : splitPoint (rest.length + 2) = k at *
+        generalize hk' : splitPoint (rest'.length + 2) = k' at *
+        simp only [List.length_cons] at h1 h2 g1 g2
+        have hl1 : ((a :: b :: rest).take k).length = k := by simp [List.length_take]; omega
+        have hl1' : ((a' :: b' :: rest').take k').length = k' := by simp [List.length_take]; omega
+        have hl2 : ((a :: b :: rest).drop k).length = rest.length + 2 - k := by simp [List.length_drop]
+        have hl2' : ((a' :: b' :: rest').drop k').length = rest'.length + 2 - k' := by simp [List.length_drop]
+        have hlenL := simpleHash_len H hlen f ((a :: b :: rest).take k) f' ((a' :: b' :: rest').take k')
+          (by intro h; rw [h] at hl1; simp at hl1; omega) (by intro h; rw [h] at hl1'; simp at hl1'; omega)
+          (by omega) (by omega)
+        obtain ⟨eL, eR⟩ := List.append_inj e hlenL
+        rcases ih _ _ (by omega) (by omega) f f' (by omega) (by omega) eL with c | tL
+        · exact Or.inl c
+        · rcases ih _ _ (by omega) (by omega) f f' (by omega) (by omega) eR with c | tR
+          · exact Or.inl c
+          · right
+            rw [← List.take_append_drop k (a :: b :: rest), ← List.take_append_drop k' (a' :: b' :: rest'), tL, tR]
+      · exact Or.inl c
+end
+section
+variable (H : Bytes → Bytes) (encKV : Bytes → Bytes → Bytes)
+
+theorem mem_mapInsert {k v : Bytes} {m : List (Bytes × Bytes)} {p : Bytes × Bytes}
+    (h : p ∈ mapInsert k v m) : p = (k, v) ∨ p ∈ m := by
+  induction m with
+  | nil => simp [mapInsert] at h; exact Or.inl h
+  | cons q r ih =>
+    obtain ⟨k', v'⟩ := q
+    simp only [mapInsert] at h
+    split at h
+    · simp at h; rcases h with h | h | h <;> simp [h]
+    · split at h
+      · simp at h; rcases h with h | h <;> simp [h]
+      · simp at h; rcases h with h | h
+        · simp [h]
+        · rcases ih h with h | h <;> simp [h]
+
+theorem mapInsert_self (k v : Bytes) (m : List (Bytes × Bytes)) : (k, v) ∈ mapInsert k v m := by
+  induction m with
+  | nil => simp [mapInsert]
+  | cons q r ih =>
+    obtain ⟨k', v'⟩ := q
+    simp only [mapInsert]
+    split
+    · simp
+    · split <;> simp [ih]
+
+theorem mapInsert_other {k v : Bytes} {m : List (Bytes × Bytes)} {p : Bytes × Bytes}
+    (h : p ∈ m) (hk : p.1 ≠ k) : p ∈ mapInsert k v m := by
+  induction m with
+  | nil => simp at h
+  | cons q r ih =>
+    obtain ⟨k', v'⟩ := q
+    simp only [mapInsert]
+    simp only [List.mem_cons] at h
+    split
+    · rcases h with h | h <;> simp [h]
+    · split
+      · rename_i _ he
+        rcases h with h | h
+        · subst h; exact absurd he.symm hk
+        · simp [h]
+      · rcases h with h | h
+        · simp [h]
+        · simp [ih h]
+
+theorem mem_foldl_insert (infos : List StoreInfo) : ∀ (acc : List (Bytes × Bytes)) (p : Bytes × Bytes),
+    p ∈ infos.foldl (fun m si => mapInsert si.name (H si.hash) m) acc →
+    p ∈ acc ∨ ∃ si ∈ infos, p = (si.name, H si.hash) := by
+  induction infos with
+  | nil => intro acc p h; exact Or.inl h
+  | cons x xs ih =>
+    intro acc p h
+    simp only [List.foldl_cons] at h
+    rcases ih _ p h with h | ⟨si, hs, e⟩
+    · rcases mem_mapInsert h with h | h
+      · exact Or.inr ⟨x, by simp, h⟩
+      · exact Or.inl h
+    · exact Or.inr ⟨si, by simp [hs], e⟩
+
+theorem foldl_insert_keep (infos : List StoreInfo) : ∀ (acc : List (Bytes × Bytes)) (p : Bytes × Bytes),
+    p ∈ acc → (∀ y ∈ infos, y.name ≠ p.1) →
+    p ∈ infos.foldl (fun m si => mapInsert si.name (H si.hash) m) acc := by
+  induction infos with
+  | nil => intro acc p h _; exact h
+  | cons x xs ih =>
+    intro acc p h hn
+    simp only [List.foldl_cons]
+    exact ih _ p (mapInsert_other h (fun e => hn x (by simp) e.symm)) (fun y hy => hn y (by simp [hy]))
+
+theorem mem_foldl_of_nodup (infos : List StoreInfo) (hnd : (infos.map (·.name)).Nodup) :
+    ∀ (acc : List (Bytes × Bytes)) (si : StoreInfo), si ∈ infos →
+    (si.name, H si.hash) ∈ infos.foldl (fun m si => mapInsert si.name (H si.hash) m) acc := by
+  induction infos with
+  | nil => intro acc si h; simp at h
+  | cons x xs ih =>
+    intro acc si h
+    simp only [List.map_cons, List.nodup_cons] at hnd
+    simp only [List.foldl_cons]
+    simp only [List.mem_cons] at h
+    rcases h with rfl | h
+    · apply foldl_insert_keep H xs _ _ (mapInsert_self _ _ _)
+      intro y hy e
+      exact hnd.1 (by simp only [List.mem_map]; exact ⟨y, hy, e⟩)
+    · exact ih hnd.2 _ si h
+
+/-- equal `CommitInfo` hashes mean equal name ↦ hash maps, up to collisions -/
+theorem commitHash_inj (hne : HNonEmpty H) (hlen : HLen H) (hkv : KVInj encKV) (a b : List StoreInfo)
+    (h : commitHash H encKV a = commitHash H encKV b) : Collision H ∨ infosMap H a = infosMap H b := by
+  simp only [commitHash] at h
+  rcases simpleHash_inj H hne hlen _ _ _ (Nat.le_max_left _ _) (Nat.le_max_right _ _) _ _ (Nat.le_refl _) (Nat.le_refl _) h with c | e
+  · exact Or.inl c
+  · generalize infosMap H a = ma at e
+    generalize infosMap H b = mb at e
+    induction ma generalizing mb with
+    | nil => cases mb with
+      | nil => exact Or.inr rfl
+      | cons _ _ => simp at e
+    | cons p ps ih => cases mb with
+      | nil => simp at e
+      | cons q qs =>
+        simp only [List.map_cons, List.cons.injEq] at e
+        obtain ⟨e1, e2⟩ := e
+        obtain ⟨k1, k2⟩ := hkv _ _ _ _ e1
+        rcases H_inj_or_collision H k2 with e3 | c
+        · rcases ih qs e2 with c | e4
+          · exact Or.inl c
+          · right; rw [e4]; congr 1; exact Prod.ext k1 e3
+        · exact Or.inl c
+
+/-- **multistore_sound**: when the proof names every store at most once (or the repaired code rejects
+duplicates), an accepted multistore op for `(name, value)` against the hash of the committed
+`StoreInfo`s means the commit holds `value` as the root of store `name` — or a collision. -/
+theorem multistore_sound' (hne : HNonEmpty H) (hlen : HLen H) (hkv : KVInj encKV) (fx : Fixes)
+    (proofInfos real : List StoreInfo) (name value : Bytes)
+    (hnd : fx.dupNames = true ∨ (proofInfos.map (·.name)).Nodup)
+    (h : multiStoreRun H encKV fx proofInfos name [value] = .ok [commitHash H encKV real]) :
+    (∃ si ∈ real, si.name = name ∧ si.hash = value) ∨ Collision H := by
+  simp only [multiStoreRun] at h
+  split at h
+  · simp at h
+  · rename_i hdup
+    have hnd' : (proofInfos.map (·.name)).Nodup := by
+      rcases hnd with hfx | hnd
+      · exact Classical.byContradiction (fun hc => hdup ⟨hfx, hc⟩)
+      · exact hnd
+    split at h
+    · rename_i si hfind
+      split at h
+      · rename_i hv
+        injection h with h
+        simp only [List.cons.injEq, and_true] at h
+        have hmem := List.mem_of_find?_eq_some hfind
+        have hname : si.name = name := by simpa using List.find?_some hfind
+        rcases commitHash_inj H encKV hne hlen hkv _ _ h with c | e
+        · exact Or.inr c
+        · have h1 := mem_foldl_of_nodup H proofInfos hnd' [] si hmem
+          have h1' : (si.name, H si.hash) ∈ infosMap H proofInfos := h1
+          rw [e] at h1'
+          rcases mem_foldl_insert H real [] _ h1' with h2 | ⟨sr, hsr, e2⟩
+          · simp at h2
+          · simp only [Prod.mk.injEq] at e2
+            rcases H_inj_or_collision H e2.2 with e3 | c
+            · exact Or.inl ⟨sr, hsr, by rw [← e2.1, hname], by rw [← e3, hv]⟩
+            · exact Or.inr c
+      · simp at h
+    · simp at h
+
+/-- **multistore_dup_forges** (code as it is): with the store named twice, `Run` checks the first
+`StoreInfo` while the root hash keeps the last: any value is "proved" under the honest root. -/
+theorem multistore_dup_forges' (name real forged : Bytes) (ver : Int) :
+    multiStoreRun H encKV Fixes.none [⟨name, ver, forged⟩, ⟨name, ver, real⟩] name [forged]
+      = .ok [commitHash H encKV [⟨name, ver, real⟩]] := by
+  simp [multiStoreRun, Fixes.none, commitHash, infosMap, mapInsert, Bytes.lt_irrefl]
+end
 end IavlProof
